@@ -95,10 +95,12 @@ func genMeta(r *common.Rand) string {
 	if r.Chance(4) {
 		return "%zz" // unparsable
 	}
-	if r.Chance(12) {
+	if r.Chance(16) {
 		// spellings that only a faithful query parser reads correctly
 		parts = append(parts, []string{"st%61te=inactive", "state=in%61ctive", "state=inactive;x=1", "x=1;state=inactive", "group=" + c14Groups[0] + "+x",
-			"gr%6fup=" + c14Groups[1], "state", "&&", "=inactive", "state=Inactive", "group", "%zz=1"}[r.Intn(12)])
+			"gr%6fup=" + c14Groups[1], "state", "&&", "=inactive", "state=Inactive", "group", "%zz=1",
+			// group names are compared byte for byte: another case, a trailing space, an escape of the same name
+			"group=Blue", "group=BLUE", "group=green+", "group=%62lue", "Group=blue", "group=Green"}[r.Intn(18)])
 	}
 	for i := range parts {
 		j := i + r.Intn(len(parts)-i)
